@@ -7,7 +7,7 @@ cd "$wt" || exit 1
 git checkout -q -- . ; git clean -fdq -e target
 demo=$(python3 -c "import json;print(json.load(open('$sd/meta.json'))['demo_cmd'])")
 # strip env prefixes from the recorded command
-demo=$(echo "$demo" | sed -E 's/^([A-Z_]+=[^ ]+ )+//')
+demo=$(echo "$demo" | sed -E 's/^cd <worktree> && //; s/  +[(#].*$//; s/^([A-Z_]+=[^ ]+ )+//')
 res=""
 git apply "$sd/patch.diff" || { echo "RESULT $sd patch-does-not-apply"; exit 1; }
 out=$(timeout 1500 cargo test -j6 --workspace --no-fail-fast --offline 2>&1 | grep -E "^test result" | awk '{p+=$4; f+=$6} END{print p"/"f}')
